@@ -63,13 +63,28 @@ E = {
     "lr": ("fn w1() { c1 <- 1; } launch w1(); print('lr', <- c1);", "fn w1() { c1 <- 1; } launch w1(); print('lr', <- c1);", ["c1"], ["lr"]),
     "overfill": ("c1 <- 5; c1 <- 6; print('never');", "c1 <- 5;", ["lr"], ["of"]),
     "blockline": ("let full = chan(1); full <- 1; full <- 2;", "", [], ["full"]),
+    # functions compiled on a later line whose nested lambdas (one and two levels down, in functions and methods) mention names of earlier lines
+    "deflam": ("fn lamfn(l) { return l.iter().map(|v| v * x).list(); }", "fn lamfn(l) { return l.iter().map(|v| v * x).list(); }", ["x"], ["lamfn"]),
+    "uselam": ("print('lam', lamfn([1, 2]));", "print('lam', lamfn([1, 2]));", ["lamfn"], []),
+    "defmeth": ("class LM { m() { return (|| x + 1)(); } n() { return [1].iter().map(|v| print).list().len(); } }", "class LM { m() { return (|| x + 1)(); } n() { return [1].iter().map(|v| print).list().len(); } }", ["x"], ["LM"]),
+    "usemeth": ("print('lm', LM().m(), LM().n());", "print('lm', LM().m(), LM().n());", ["LM"], []),
+    "deflam2": ("fn lam2() { return || || x + 2; }", "fn lam2() { return || || x + 2; }", ["x"], ["lam2"]),
+    "uselam2": ("print('l2', lam2()()());", "print('l2', lam2()()());", ["lam2"], []),
+    "deflamw": ("fn lamw() { let f = || { x = x + 5; return x; }; return f(); }", "fn lamw() { let f = || { x = x + 5; return x; }; return f(); }", ["x"], ["lamw"]),
+    "uselamw": ("print('lw', lamw(), x);", "print('lw', lamw(), x);", ["lamw"], []),
+    "deflamp": ("fn lamp() { [1, 2].iter().each(|v| print('each', v)); }", "fn lamp() { [1, 2].iter().each(|v| print('each', v)); }", ["x"], ["lamp"]),
+    "uselamp": ("lamp();", "lamp();", ["lamp"], []),
+    "deflamcls": ("fn mk() { return || A().foo(); }", "fn mk() { return || A().foo(); }", ["A"], ["mk"]),
+    "uselamcls": ("print('mk', mk()());", "print('mk', mk()());", ["mk"], []),
     "loop": ("for i in 2.times() { print('i', i); }", "for i in 2.times() { print('i', i); }", [], []),
 }
 QUICK = ["defx", "updx", "getx", "callgetx", "clsA", "callfoo", "prop", "usefooA", "usepropA", "bad", "raise", "rtfail", "clsB", "usefooB", "faildecl", "faildecl_g", "failimport"]
 FIBERS = ["defch", "defprod", "launchprod", "recv1", "recv2", "recv3", "sendself", "recvself", "blockline", "defc1", "lr", "overfill", "rtfail", "raise", "bad", "faildecl", "defx", "updx"]
 FIBER_ONLY = ["defch", "defprod", "launchprod", "recv1", "recv2", "recv3", "sendself", "recvself", "blockline", "defc1", "lr", "overfill"]
 IMPORT_ONLY = ["impgood", "usegood", "impgood2", "usegood2", "impbad", "impbad2", "imprt"]
-ALL = [k for k in E if k not in IMPORT_ONLY and k not in FIBER_ONLY]
+NESTED_ONLY = ["deflam", "uselam", "defmeth", "usemeth", "deflam2", "uselam2", "deflamw", "uselamw", "deflamp", "uselamp", "deflamcls", "uselamcls"]
+NESTED = ["defx", "updx"] + NESTED_ONLY + ["clsA", "bad", "rtfail"]
+ALL = [k for k in E if k not in IMPORT_ONLY and k not in FIBER_ONLY and k not in NESTED_ONLY]
 IMPORTS = ["impgood", "usegood", "impgood2", "usegood2", "impbad", "impbad2", "imprt", "failimport", "clsA", "callfoo", "usefooA", "bad", "faildecl"]
 FILES = {
     "/v/good.lay": "export fn g(a) { return a.v; } class P { init() { self.v = 7; } } export let p = P(); print('good loaded', g(p));",
@@ -136,9 +151,9 @@ class C19(Check):
 
     def gen(self, tier):
         if tier == "thorough":
-            plans = [(ALL, 5), (QUICK, 6), (IMPORTS, 6), (FIBERS, 7)]
+            plans = [(ALL, 5), (QUICK, 6), (IMPORTS, 6), (FIBERS, 7), (NESTED, 6)]
         else:
-            plans = [(QUICK, 5), (IMPORTS, 5), (FIBERS, 6)]
+            plans = [(QUICK, 5), (IMPORTS, 5), (FIBERS, 6), (NESTED, 5)]
         seen_upto = 0
         for alpha, L in plans:
             for seq in sequences(alpha, L):
@@ -164,7 +179,7 @@ class C19(Check):
 
     def judge(self, spec, ctx, rs):
         rp, fl = rs
-        cross = any(n in ("callgetx", "usefooA", "usefooB", "usepropA", "usepropB", "callinc", "usegood", "usegood2", "recv1", "recv2", "recv3", "recvself") for n in spec)
+        cross = any(n in ("callgetx", "usefooA", "usefooB", "usepropA", "usepropB", "callinc", "usegood", "usegood2", "recv1", "recv2", "recv3", "recvself", "uselam", "usemeth", "uselam2", "uselamw", "uselamp", "uselamcls") for n in spec)
         if fl.get("class") != "ok":
             v = Verdict(False, cross, "file-not-ok", "the file version did not run cleanly (model error?): class=%s err=%r" % (fl.get("class"), fl.get("err", "")[-300:]))
             v.extra["machinery"] = True
